@@ -48,6 +48,13 @@ def _setup(src, n, nconf, strategies=STRATEGIES, same_app=True):
     for app in core.context.applications.values():
         adapter.set_rules(app.rules, managed=managed, start_sequence=1)
     core.finalize_rules()
+    # one of the peers may be in the middle of its handshake: its process table is already loaded (the conflict is
+    # visible) but it is not admitted yet
+    joining = src.pick('joining_instance', [None] + list(range(1, n)))
+    if joining is not None:
+        from supvisors.ttypes import SupvisorsInstanceStates as S
+        adapter.plant_instance_state(core, ids[joining], S.CHECKING)
+    core.joining = joining
     core.rpc_handler.out.clear()
     return core, strat, managed, procs
 
@@ -105,6 +112,9 @@ def conciliate(src, n=3, nconf=2, strategies=STRATEGIES, same_app=True, closure=
                   got=sorted(got), allowed=[sorted(a) for a in allowed])
     for ns in stops:
         src.check('only-conflicting-processes-stopped', ns in expected, sig=strat, namespec=ns)
+    if core.joining is not None:
+        src.reach('during-handshake')
+        return          # the events of an instance that is not admitted yet are not processed (C12 finding F7)
     if not closure:
         return
     # --- closure: the stops are acknowledged in a symbolic order, ticks in between
